@@ -86,7 +86,7 @@ def _history(draw):
         elif c == "clock":
             ops.append(["clock", draw(st.sampled_from([1, 100, 100000]))])
         elif c == "bad_handle":
-            ops.append(["bad_handle", draw(st.sampled_from(["null", "zeroed"])), draw(st.sampled_from(["call", "load_config", "status"]))])
+            ops.append(["bad_handle", draw(st.sampled_from(["null", "zeroed"])), draw(st.sampled_from(["call", "load_config", "status", "destroy"]))])
     return dict(ops=ops)
 
 
@@ -145,6 +145,9 @@ def check(case, env):
                     failed_before.add(inst)
                 if v is None and any(c["ud"] != st_["ud"] for c in rep["cb"]):
                     v = viol("callback-user-data", ctx + "a diagnostic was delivered with foreign user data: %s" % rep["cb"][:3])
+                if v is None and any(c["cd"] not in (0, None) for c in rep["cb"]):
+                    # sqfvm_load_config takes no call data: its diagnostics must not carry the pointer of some earlier sqfvm_call
+                    v = viol("load_config-stale-call-data", ctx + "a diagnostic of sqfvm_load_config was delivered with the call data of an earlier call: %s" % [(c["cd"], (c["m"] or "")[:50]) for c in rep["cb"][:3]])
             elif k == "call":
                 _, inst, typ, cls, text, cd = op
                 st_ = insts[inst]
